@@ -362,7 +362,7 @@ func runCase(c Case, boundScale int) (*failure, *obs) {
 	if stallX != nil {
 		stallX.stall = make(chan struct{})
 		if !halfClose {
-			stallX.tail = len(stallX.send)/2 + 1
+			stallX.tail = len(stallX.send) / 2 // at least one byte goes out before the stall, at least one after
 			stallX.tailGo = make(chan struct{})
 		}
 	}
@@ -492,7 +492,11 @@ func runCase(c Case, boundScale int) (*failure, *obs) {
 		}
 		af = r.attach()
 	case "after-first-write":
-		<-A.firstWrite
+		select {
+		case <-A.firstWrite:
+		case <-time.After(20 * time.Second):
+			return &failure{key: "C02/harness/first-write-never-happened", detail: kind}, o
+		}
 		af = r.attach()
 	}
 	if c.Mini {
@@ -701,6 +705,9 @@ func runCase(c Case, boundScale int) (*failure, *obs) {
 	kindKey := kind
 	if c.Ending.ErrKind != "" {
 		kindKey += ":" + c.Ending.ErrKind
+	}
+	if c.Mini && c.SameClient {
+		kindKey += "/same-client-mapping"
 	}
 	// after the first close / failure: both ends observe closure within bounded time
 	if !waitFor(bound, func() bool { return isDone(A.readDone) && isDone(B.readDone) }) {
